@@ -78,6 +78,10 @@ def gen(rng, tier):
             # the same synset listed twice (no random draw: the stream of the other choices stays as it was):
             # the later weight replaces the earlier one, and each ROOT line adds to the total
             lines.append(lines[1].split()[0] + ' 3' + (' ROOT' if k % 2 == 0 else ''))
+        if k % 5 == 0:
+            # synset number 1 listed under a part of speech that is not its own (again no random draw): the weight belongs
+            # to freq[that pos], synset 1's own entry is untouched, and as a ROOT line it adds to that pos's total
+            lines.append('1%s 7 ROOT' % ('v' if g['pos'][0] != 'v' else 'n'))
         g['ic_load'] = '\n'.join(lines) + '\n'
         gs.append(g)
         k += 1
@@ -217,7 +221,9 @@ def oracle(rep, g, rec, stats, pairs, load_pairs=None):
                                          {'hyponym': t, 'hypernym': u})
         if any(len(reach[s]) > 2 for tok in counts for s in members.get(tok, [])):
             nontrivial = True
-        if exact and not (bad or badT):
+        # every exactly representable job goes to the model, whether or not the oracle above agreed: a change of compute()
+        # then shows as a broken correspondence as well as an oracle failure
+        if exact and all(i in got for i in expF) and all(c in gotT for c in range(4)):
             impl = [[[i, got[i][1].numerator, got[i][1].denominator] for i in sorted(expF)],
                     [[c, gotT[c].numerator, gotT[c].denominator] for c in range(4)]]
             pairs.append((model_input(g, rec, job, synres, counts), impl))
